@@ -538,6 +538,10 @@ func runC14(c *engine.Ctx) {
 	checkOIDCSubjects(c, "R10")
 	// ---- R11 ----
 	checkLocalStartFailure(c, "R11")
+	// ---- R13 a failed login is retried, not a panic on the retry goroutine (shared with C16.R26) ----
+	checkDeferredUseOfResult(c, "R13")
+	// ---- R14 a peer that keeps sending heartbeats keeps getting answers (shared with C16.R27) ----
+	checkDeadlineCleared(c, "R14")
 }
 
 // checkOIDCSubjects: the OIDC verifier is shared by all sessions of the server; VerifyLogin records the subject of every
